@@ -35,7 +35,7 @@ func c02CondEval(f []string) (string, []string) {
 		return "io-error", []string{"io-error"}
 	}
 	explored := strings.Contains(cond, "x=")
-	out, kind := c02CondRender(method, resp, body, rerr, id, explored)
+	out, kind := c02CondRender(method, resp, body, rerr, id, explored, false)
 	return out, []string{"kind=" + kind, "method=" + method}
 }
 
